@@ -6,6 +6,7 @@ FAMILIES = {
     "set": {"src": "scen/set.cpp", "parts": 2},
     "ovx": {"src": "scen/ovx.cpp", "parts": 3},
     "bits": {"src": "scen/bits.cpp", "parts": 3},
+    "fn": {"src": "scen/fn.cpp", "parts": 2},
 }
 
 SAN = ["-O1", "-g1", "-fsanitize=address,undefined", "-fno-sanitize-recover=undefined", "-fno-omit-frame-pointer"]
@@ -89,8 +90,22 @@ PROPS = {
         "quick": {"flavours": ["chk-O2"], "runs": 300000, "max_seconds": 40},
         "thorough": {"flavours": ["chk-O2", "chk-asan", "off-asan", "chk-O0"], "runs": 8000000, "max_seconds": 240},
     },
+    "C20": {
+        "families": ["fn"],
+        "level": "exploration",
+        "rule": "one run = one seeded plan over (a) a pool of inplace_function<int(int,int&,Tracked const&,TrackedMoveOnly&&),Cap> "
+                "objects (Cap 8/16/32/64) holding function pointers, trivially copyable stateful callables and non-trivially copyable "
+                "callables padded exactly to 16 bytes and to the capacity, (b) function_ref / reference_wrapper / bind_front / not_fn / "
+                "invoke over three stateful targets, (c) pools of pair<A,B> and tuple<A,B,C> over int, copy+move, move-only and "
+                "copy-only elements; every wrapper call is checked against the instrumented target's call log (which instance, how "
+                "often, argument values, addresses and value categories, result) and pairs/tuples against std::pair / std::tuple; "
+                "non-trivial and distinct as for C01",
+        "assumptions": COMMON_ASSUME,
+        "quick": {"flavours": ["chk-O2"], "runs": 300000, "max_seconds": 40},
+        "thorough": {"flavours": ["chk-O2", "chk-asan", "off-asan", "chk-O0"], "runs": 8000000, "max_seconds": 240},
+    },
     "C02": {
-        "families": ["vec", "str", "set", "ovx", "bits"],
+        "families": ["vec", "str", "set", "ovx", "bits", "fn"],
         "level": "exploration",
         "rule": "one run = one seeded plan of valid (and capacity-refusal) steps executed twice under two different garbage "
                 "patterns in the arena, under ASan+UBSan, with guard zones, exact-size heap argument buffers and the allocator "
@@ -100,7 +115,7 @@ PROPS = {
         "thorough": {"flavours": ["chk-asan", "off-asan", "chk-O2", "chk-O0"], "runs": 6000000, "max_seconds": 240},
     },
     "C03": {
-        "families": ["vec", "set", "ovx"],
+        "families": ["vec", "set", "ovx", "fn"],
         "level": "exploration",
         "rule": "one run = one seeded plan over owners of instrumented elements; every special-member call is checked against "
                 "an address-keyed lifetime registry, the live set inside each owner must equal [begin,end) after every step "
@@ -110,7 +125,7 @@ PROPS = {
         "thorough": {"flavours": ["chk-O2", "chk-asan", "off-asan", "chk-O0"], "runs": 12000000, "max_seconds": 240},
     },
     "C05": {
-        "families": ["vec", "str", "set", "ovx", "bits"],
+        "families": ["vec", "str", "set", "ovx", "bits", "fn"],
         "level": "fault_enumeration",
         "rule": "misuse faults (a precondition-violating call at the boundary, boundary+1 and max) are attached to seeded steps "
                 "of container histories; the replaced handler must be entered with a location before any damage and, for "
@@ -185,6 +200,20 @@ MANIFEST_TEXT = {
         "note": "Thinnest fit of the technique (no resource to exhaust, no foreign code): it is claimed because the property is about "
                 "histories in which one operation corrupts padding and a later one observes it. Trusts std::bitset.",
         "ref": "DESIGN.md section 3 C17",
+    },
+    "C20": {
+        "text": "Seeded histories of construct / copy / move / assign (callable, wrapper, nullptr) / swap / reset / call on "
+                "inplace_function with callables of every size up to the capacity (function pointers, trivially and non-trivially "
+                "copyable captures), converting copies and moves between capacities, self-assignment and self-swap, calls of empty "
+                "and moved-from wrappers (trapped through the exception handler); function_ref, reference_wrapper, bind_front "
+                "(all four call forms), not_fn and invoke over stateful targets; pair and tuple construction, assignment, swap, "
+                "get on all value categories, apply, tuple_cat, make_from_tuple and comparisons. Oracle: the instrumented target's "
+                "call log (exactly one call, which instance, argument values / addresses / value categories, result) against a "
+                "trivial model, std::pair / std::tuple for the value types.",
+        "note": "The comparison part of pair/tuple is stateless and is included only because they are pool objects with assignment "
+                "and swap histories. lvalue tuple_cat and tuple structured bindings are ill-formed in the library (open known "
+                "findings) and excluded.",
+        "ref": "DESIGN.md section 3 C20",
     },
     "C09": {
         "text": "Seeded history simulation of static_set and flat_set (over static_vector) with int and instrumented keys, capacities "
